@@ -33,7 +33,7 @@ VALUE_KINDS = ["u64", "str", "sg", "fmt", "optnone", "optsome"]
 LEAF_KINDS = VALUE_KINDS + [k + "@" for k in VALUE_KINDS] + ["ignore", "ts"]
 
 BUDGET = {
-    "quick": {"small_total": 3, "small_bind": 900, "sim_walks": 600, "sim_bind": 900, "chain_walks": 120, "chain_bind": 150,
+    "quick": {"small_total": 3, "small_bind": 2500, "sim_walks": 5000, "sim_bind": 2500, "chain_walks": 800, "chain_bind": 400,
               "bins": 12, "neg": True,
               "instr_depth": 7, "flex_depth": 5},
     "thorough": {"small_total": 4, "small_bind": 20000, "sim_walks": 12000, "sim_bind": 20000, "chain_walks": 2000,
@@ -76,7 +76,10 @@ def ensure_crate():
     deps = htoml[htoml.index("[workspace]"):].replace(hrepo + "/", repo + "/")
     toml = ('[package]\nname = "vharness-entry"\nversion = "0.0.0"\nedition = "2024"\npublish = false\n'
             'autobins = true\n\n# dependencies and profile are those of harness/Cargo.toml so that the compiled dependency\n'
-            '# tree in the shared target directory is reused (kept in sync by checks/chk_x_entryderive.py)\n' + deps)
+            '# tree in the shared target directory is reused (kept in sync by checks/chk_x_entryderive.py)\n' + deps
+            # the generated programs themselves are compiled without optimisation (3x faster; the dependencies keep
+            # the shared profile)
+            + '\n[profile.dev.package.vharness-entry]\nopt-level = 0\n')
     cfg = ('[net]\noffline = true\n[build]\ntarget-dir = "%s"\n'
            'rustflags = ["--cfg", "metrique_verif", "--check-cfg", "cfg(metrique_verif)"]\n' % target)
     os.makedirs(os.path.join(crate, ".cargo"), exist_ok=True)
@@ -157,10 +160,8 @@ def ed_families(chk, tier):
              "ScriptRot": rng.randrange(14), "ScriptRev": "TRUE" if rng.random() < 0.5 else "FALSE"}
     fams.append(("names", write_cfg(chk, "MC_ed_names.cfg", names, "names family (exhaustive)"), None, None))
     # small trees, exhaustive over a seeded cross-section of the attribute domains
-    kinds = {"ts", rng.choice(["sg", "sg@"])} | set(rng.sample(LEAF_KINDS, 3 if tier == "quick" else 4))
+    kinds = {"ts", rng.choice(["sg", "sg@"])} | set(rng.sample(LEAF_KINDS, 3))
     forms = {"s_named", rng.choice(["s_tuple", "e1_tuple", "e3_tuple"]), rng.choice(["e1_named", "e3_named"])}
-    if tier != "quick":
-        forms.add(rng.choice(FORMS))
     small = {"MaxDepth": 3, "MaxFields": 3, "MaxTotal": b["small_total"], "Styles": tla_set(rng.sample(RAS, 1)),
              "VStyles": tla_set(["inherit", rng.choice(RAS[1:])]), "Kinds": tla_set(kinds), "Forms": tla_set(forms),
              "Edges": tla_set({"plain", rng.choice(EDGES[1:])}), "ScriptKinds": "{}", "ScriptRot": 0, "ScriptRev": "FALSE"}
@@ -212,8 +213,9 @@ def ed_tlc(chk, tier):
                 raise vlib.ToolError(f"vacuity: action {a} of EntryDerive.tla is never taken in MC_ed.cfg")
     out = {}
     for fam, cfg, walks, depth in ed_families(chk, tier):
+        # (-simulate is only reproducible for a given seed with one worker)
         r = vlib.tlc(SPEC_ED, "EntryDeriveReplay", cfg, timeout=1800, simulate=walks, depth=depth,
-                     seed=chk.seed if walks else None)
+                     seed=chk.seed if walks else None, workers=1 if walks else None)
         if r.errors or (not walks and not r.no_error):
             sys.stdout.write(r.out[-3000:])
             raise vlib.ToolError(f"EntryDeriveReplay/{fam} failed: {r.errors[:2]}")
@@ -355,7 +357,8 @@ def ed_select(fams, tier, rng):
         if fam == "small" and len(idx) > b["small_bind"]:
             # every tree with <= 2 fields, a seeded sample of the rest
             short = [i for i in idx if sum(1 for t in lines[i]["toks"] if t["t"] in ("F", "O")) <= 2]
-            rest = [i for i in idx if i not in set(short)]
+            sset = set(short)
+            rest = [i for i in idx if i not in sset]
             if len(short) > b["small_bind"] // 2:
                 short = rng.sample(short, b["small_bind"] // 2)
             idx = short + rng.sample(rest, min(len(rest), b["small_bind"] - len(short)))
@@ -416,6 +419,323 @@ def run_entryderive(chk, tier):
 
 
 # --------------------------------------------------------------------------------------------
+# (a) rejected definitions
+# --------------------------------------------------------------------------------------------
+NEG_ACTIONS = ("DupName", "DupTs", "TupleUnnamed", "EmptyName", "BadCombo", "UnknownAttr", "BadStyle")
+
+
+def defect_of(line):
+    for t in line["toks"]:
+        if t["t"] == "B":
+            return t["d"] + (":" + t["c"] if t["d"] == "combo" else "")
+    return "badstyle"
+
+
+def run_entryderive_neg(chk, tier, only=None):
+    if only is None:
+        r = vlib.model_check(SPEC_ED, "EntryDeriveNeg", "MC_ed_neg.cfg", timeout=600)
+        chk.add_model("EntryDeriveNeg/MC_ed_neg.cfg", r)
+        for a in NEG_ACTIONS:
+            if not r.coverage.get(a):
+                raise vlib.ToolError(f"vacuity: action {a} of EntryDeriveNeg.tla is never taken")
+        lines = fast_replay_lines(r.out)
+        r.out = ""
+        by = collections.defaultdict(list)
+        for l in lines:
+            by[defect_of(l)].append(l)
+        per = 12 if tier == "quick" else 10 ** 9
+        sel = []
+        for d in sorted(by):
+            ls = by[d]
+            sel += ls if len(ls) <= per else chk.rng.sample(ls, per)
+        log(f"[tlc] EntryDeriveNeg: {len(lines)} rejected definitions, {len(by)} defect kinds, {len(sel)} bound")
+    else:
+        lines = sel = only
+    behaviours = [(f"neg{i}", l) for i, l in enumerate(sel)]
+    crate, repo, tdir = ensure_crate()
+    src, where = ge.neg_program(behaviours)
+    path = os.path.join(crate, "src", "bin", "neg_all.rs")
+    with open(path, "w") as f:
+        f.write(src)
+    p, wall = cargo(crate, ["neg_all"], json_messages=True)
+    errors = collections.defaultdict(list)       # line -> [message]
+    for l in p.stdout.splitlines():
+        if not l.startswith("{"):
+            continue
+        try:
+            o = json.loads(l)
+        except ValueError:
+            continue
+        if o.get("reason") != "compiler-message" or o.get("target", {}).get("name") != "neg_all":
+            continue
+        m = o["message"]
+        if m.get("level") != "error":
+            continue
+        for sp in m.get("spans", []):
+            if sp.get("is_primary") and sp.get("file_name", "").endswith("neg_all.rs"):
+                errors[sp["line_start"]].append(m["message"])
+    if p.returncode == 0:
+        log("[neg] the program of rejected definitions compiled")
+    by_id = dict(behaviours)
+    stats = collections.Counter()
+    for ln, (bid, msg) in sorted(where.items()):
+        errs = errors.get(ln, [])
+        if msg is None:
+            stats["controls"] += 1
+            if errs:
+                base = by_id[bid[:-len("-control")]]
+                chk.violation(f"#[derive(Entry)] rejects a well-formed definition: {errs[0]!r} [{src.splitlines()[ln - 1]}]",
+                              {"kind": "entryderive-neg", "line": base, "control": True, "errors": errs}, key="X03:derive:neg-control-rejected")
+            continue
+        line = by_id[bid]
+        d = defect_of(line)
+        stats["rejected_definitions"] += 1
+        chk.nontrivial.add("neg:" + json.dumps(line["toks"], sort_keys=True))
+        if not errs:
+            chk.violation(f"#[derive(Entry)] accepts a definition it documents as rejected ({d}; expected error {msg!r}) "
+                          f"[{src.splitlines()[ln - 1]}]",
+                          {"kind": "entryderive-neg", "line": line, "errors": []}, key=f"X03:derive:neg-accepted:{d.split(':')[0]}")
+        elif not any(msg in e for e in errs):
+            stats["other_message"] += 1
+            if len(chk.drift) < 10:
+                chk.drift.append({"what": "a rejected definition is rejected with a different diagnostic", "defect": d,
+                                  "expected": msg, "got": errs[:2]})
+        else:
+            stats["diagnostic_matches"] += 1
+    if os.path.exists(path):
+        os.remove(path)       # a program that must not compile is not left in the crate
+    chk.traces += stats["rejected_definitions"] + stats["controls"]
+    chk.evaluations += stats["rejected_definitions"] + stats["controls"]
+    chk.extra["ed_neg"] = dict(stats, compile_wall_s=round(wall, 1), enumerated=len(lines))
+    if sel:
+        chk.sample({"subject": "derive(Entry) rejected definition", "toks": sel[0]["toks"], "diagnostic": sel[0]["msg"]})
+    log(f"[X03a-neg] {stats['rejected_definitions']} rejected definitions ({stats['diagnostic_matches']} with the documented diagnostic), "
+        f"{stats['controls']} well-formed controls, rustc {wall:.1f}s")
+
+
+# --------------------------------------------------------------------------------------------
+# (c) Instrumented, (b) Flex: sequential replay of TLC histories on the real objects
+# --------------------------------------------------------------------------------------------
+def replay_cfg(chk, base_dir, base, name, subst):
+    with open(os.path.join(base_dir, base)) as f:
+        text = f.read()
+    for k, v in subst.items():
+        text = re.sub(r"(?m)^  %s = .*$" % k, "  %s = %s" % (k, v), text)
+    path = os.path.join(chk.dir, name)
+    with open(path, "w") as f:
+        f.write("\\* generated by checks/chk_x_entryderive.py from %s\n" % base + text)
+    return path
+
+
+def drive(chk, cmd, behaviours, tag):
+    path = os.path.join(chk.dir, f"{tag}-behaviours.ndjson")
+    vlib.write_ndjson(path, behaviours)
+    p = vlib.run_bin("flexi", [cmd, path], timeout=600)
+    outs = [json.loads(l) for l in p.stdout.splitlines() if l.strip()]
+    if len(outs) != len(behaviours):
+        raise vlib.ToolError(f"flexi {cmd}: {len(outs)} results for {len(behaviours)} behaviours")
+    return outs
+
+
+def hist_sig(h):
+    return " ".join(st["a"] + (":" + st["args"]["which"] if st["a"] == "Callback" else "") for st in h)
+
+
+def run_instrument(chk, tier, only=None):
+    if only is None:
+        r = vlib.model_check(SPEC_IN, "Instrument", "MC_instr.cfg", timeout=600)
+        chk.add_model("Instrument/MC_instr.cfg", r)
+        for a in ("Start", "Poll", "DropFuture", "Callback", "Emit", "IntoParts", "Touch", "DropParts", "SplitTo", "Discard", "DropInst"):
+            if not r.coverage.get(a):
+                raise vlib.ToolError(f"vacuity: action {a} of Instrument.tla is never taken")
+        cfg = replay_cfg(chk, SPEC_IN, "MC_instr_replay.cfg", "MC_instr_replay_run.cfg", {"MaxLen": BUDGET[tier]["instr_depth"]})
+        rr = vlib.tlc(SPEC_IN, "InstrumentReplay", cfg, timeout=1200)
+        if rr.errors or not rr.no_error:
+            sys.stdout.write(rr.out[-3000:])
+            raise vlib.ToolError(f"InstrumentReplay failed: {rr.errors[:2]}")
+        hists = fast_replay_lines(rr.out)
+        rr.out = ""
+        chk.add_model("InstrumentReplay/MC_instr_replay.cfg", rr)
+        log(f"[tlc] InstrumentReplay: {len(hists)} maximal histories ({rr.distinct} states) in {rr.wall:.1f}s")
+    else:
+        hists = only
+    outs = drive(chk, "instr", hists, "instr")
+    stats = collections.Counter()
+    seen = collections.Counter()
+    for h, o in zip(hists, outs):
+        chk.traces += 1
+        chk.nontrivial.add("instr:" + json.dumps([(st["a"], st["args"]) for st in h], sort_keys=True))
+        start = h[0]["args"]
+        discard_guard = start["u"] == "guard" and any(st["a"] == "Discard" for st in h)
+        if any(st["a"] == "DropFuture" for st in h) and start["u"] == "guard":
+            stats["cancelled_with_guard"] += 1
+        if any(st["a"] == "SplitTo" for st in h) and start["pre"] and start["u"] == "guard":
+            stats["split_over_prefilled_guard"] += 1
+
+        def bad(aspect, what, i=None):
+            key = f"X03:instrument:{aspect}"
+            seen[key] += 1
+            if seen[key] > 2:
+                return
+            chk.violation(f"Instrumented: {what} [{json.dumps(start)}; history: {hist_sig(h)}" + (f"; step {i + 1}" if i is not None else "") + "]",
+                          {"kind": "instrument", "history": h, "got": o}, key=key)
+
+        if "panic" in o:
+            bad("panic", f"panic in the code under test: {o['panic']}")
+            continue
+        for i, (st, g) in enumerate(zip(h, o["obs"])):
+            e = st["obs"]
+            chk.evaluations += 1
+            exp_em, got_em = seq(e["emitted"]), g["emitted"]
+            if got_em != exp_em:
+                if discard_guard and st["a"] == "Discard":
+                    # "Discard the metrics": whether dropping a guard inside discard_metrics emits is not documented
+                    if len(chk.drift) < 10:
+                        chk.drift.append({"what": "discard_metrics() on a guard", "expected": exp_em, "got": got_em})
+                    break
+                if len(got_em) > len(exp_em):
+                    if len(exp_em) == 0 and g.get("pending"):
+                        bad("emitted-while-pending", f"an entry is in the sink while the instrumented future is still pending: {got_em}", i)
+                    elif len(exp_em) == 0:
+                        bad("emitted-early", f"after {st['a']} the sink holds {got_em}, but the metrics object has not been dropped yet", i)
+                    else:
+                        bad("emitted-twice", f"after {st['a']} the sink holds {len(got_em)} entries, expected {len(exp_em)}: {got_em}", i)
+                elif len(got_em) < len(exp_em):
+                    bad("not-emitted", f"after {st['a']} the guard has been dropped but the sink holds {got_em}, expected {exp_em}", i)
+                else:
+                    bad("content", f"after {st['a']} the emitted entry is {got_em}, expected {exp_em} (a mutation made before the drop is missing or a foreign one applied)", i)
+                break
+            if g["val"] != e["val"]:
+                bad("value", f"after {st['a']} the caller holds the value {g['val']!r}, expected {e['val']!r}", i)
+                break
+            if g["pending"] != e["pending"]:
+                bad("poll", f"after {st['a']} the future is {'pending' if g['pending'] else 'ready'}, expected {'pending' if e['pending'] else 'ready'} (segments of the closure polled: {i})", i)
+                break
+            if g["readable"] != seq(e["readable"]):
+                bad("metrics", f"after {st['a']} the metrics handed to the caller are {g['readable']}, expected {seq(e['readable'])}", i)
+                break
+    chk.extra["instrument"] = dict(stats, histories=len(hists), violations_by_key=dict(seen))
+    if hists:
+        chk.sample({"subject": "Instrumented", "history": hist_sig(hists[len(hists) // 2]), "start": hists[len(hists) // 2][0]["args"],
+                    "final_obs": hists[len(hists) // 2][-1]["obs"]})
+    if only is None and (not stats["cancelled_with_guard"] or not stats["split_over_prefilled_guard"]):
+        raise vlib.ToolError("vacuity: no Instrumented history cancels a future that owns a guard / splits over a pre-filled target")
+    log(f"[X03c] {len(hists)} Instrumented histories replayed ({stats['cancelled_with_guard']} cancel a future owning a guard)")
+
+
+FLEX_DEFAULT = {"u64": "0", "probe": "100"}
+FLEX_STATIC_VALUE = {"before": "1", "after": "2", "inner": "3"}
+
+
+def run_flex(chk, tier, only=None):
+    if only is None:
+        r = vlib.model_check(SPEC_FX, "Flex", "MC_flex.cfg", timeout=600)
+        chk.add_model("Flex/MC_flex.cfg", r)
+        for a in ("New", "Put", "Close"):
+            if not r.coverage.get(a):
+                raise vlib.ToolError(f"vacuity: action {a} of Flex.tla is never taken")
+        cfg = replay_cfg(chk, SPEC_FX, "MC_flex_replay.cfg", "MC_flex_replay_run.cfg", {"MaxOps": BUDGET[tier]["flex_depth"] - 2})
+        rr = vlib.tlc(SPEC_FX, "FlexReplay", cfg, timeout=1200)
+        if rr.errors or not rr.no_error:
+            sys.stdout.write(rr.out[-3000:])
+            raise vlib.ToolError(f"FlexReplay failed: {rr.errors[:2]}")
+        hists = fast_replay_lines(rr.out)
+        rr.out = ""
+        chk.add_model("FlexReplay/MC_flex_replay.cfg", rr)
+        log(f"[tlc] FlexReplay: {len(hists)} histories ({rr.distinct} states) in {rr.wall:.1f}s")
+    else:
+        hists = only
+    outs = drive(chk, "flex", hists, "flex")
+    seen = collections.Counter()
+    stats = collections.Counter()
+    for h, o in zip(hists, outs):
+        chk.traces += 1
+        chk.nontrivial.add("flex:" + json.dumps([(st["a"], st["args"]) for st in h], sort_keys=True))
+        start = h[0]["args"]
+        wrap, t, key = start["wrap"], start["t"], start["key"]
+
+        def bad(aspect, what, i=None):
+            k = f"X03:flex:{aspect}"
+            seen[k] += 1
+            if seen[k] > 2:
+                return
+            chk.violation(f"Flex: {what} [{json.dumps(start)}; history: {hist_sig(h)}" + (f"; step {i + 1}" if i is not None else "") + "]",
+                          {"kind": "flex", "history": h, "got": o}, key=k)
+
+        if "panic" in o:
+            bad("panic", f"panic in the code under test: {o['panic']}")
+            continue
+
+        def val_str(v):
+            return FLEX_DEFAULT[t] if v == 100 else str(v)
+
+        for i, (st, g) in enumerate(zip(h, o["obs"])):
+            e = st["obs"]
+            chk.evaluations += 1
+            if st["a"] != "Close":
+                if g["key"] != e["key"]:
+                    bad("key", f"key() returns {g['key']!r}, the key given to Flex::new is {e['key']!r}", i)
+                    break
+                if g["has"] != (e["val"] != 0):
+                    bad("value-state", f"after {st['a']} value().is_some() is {g['has']}, expected {e['val'] != 0}", i)
+                    break
+                continue
+            # --- Close: the written items and the close calls
+            exp_items = [(it["n"], val_str(it["v"]) if it["dyn"] else None, it["dyn"]) for it in seq(e["items"])]
+            got = [tuple(x) for x in g["items"]]
+            exp_dyn = [(n, v) for n, v, d in exp_items if d]
+            exp_static = [n for n, v, d in exp_items if not d]
+            got_static = [n for n, v in got if n in exp_static]
+            got_dyn = [(n, v) for n, v in got if n not in exp_static]
+            if e["val"] == 0:
+                stats["closed_unset"] += 1
+                if got_dyn:
+                    bad("unset-emitted", f"the Flex holds no value at close time but the entry contains {got_dyn} ('If the value is None, the field will not be included')", i)
+                    break
+            else:
+                stats["closed_set"] += 1
+                if not got_dyn:
+                    bad("set-omitted", f"the Flex holds a value at close time but no item is written (expected {exp_dyn})", i)
+                    break
+                if len(got_dyn) > 1:
+                    bad("duplicated", f"more than one item is written for one Flex: {got_dyn}", i)
+                    break
+                (gn, gv), (en, ev) = got_dyn[0], exp_dyn[0]
+                if gv != ev:
+                    bad("value", f"the item carries {gv!r}, the value present at close time is {ev!r}", i)
+                    break
+                if gn != en:
+                    if wrap in ("fprefix", "nested") and gn != en and gn.endswith(en):
+                        if len(chk.drift) < 10:
+                            chk.drift.append({"what": "a flatten-level prefix reaches the dynamic name", "wrap": wrap, "expected": en, "got": gn})
+                    else:
+                        bad("name", f"the item is named {gn!r}, the key chosen at run time is {en!r} (surrounding definition: {wrap})", i)
+                        break
+            if got_static != exp_static:
+                bad("statics", f"the static fields around the Flex are written as {[n for n, _ in got]}, expected {[n for n, _, _ in exp_items]}", i)
+                break
+            if [n for n, _ in got] != [n for n, _, _ in exp_items] and got_dyn and got_dyn[0][0] == exp_dyn[0][0]:
+                bad("order", f"items are written as {[n for n, _ in got]}, declaration order is {[n for n, _, _ in exp_items]}", i)
+                break
+            if t == "probe":
+                stats["close_calls_checked"] += 1
+                if g["closed"] != seq(e["closed"]):
+                    exp_c = seq(e["closed"])
+                    if len(g["closed"]) > len(exp_c):
+                        bad("close-extra", f"CloseValue::close was called for values {g['closed']}, expected exactly {exp_c} (a replaced / cleared value is dropped unclosed; the final one is closed once)", i)
+                    else:
+                        bad("close-missing", f"CloseValue::close was called for values {g['closed']}, expected exactly {exp_c}", i)
+                    break
+    chk.extra["flex"] = dict(stats, histories=len(hists), violations_by_key=dict(seen))
+    if hists:
+        hh = hists[len(hists) // 3]
+        chk.sample({"subject": "Flex", "start": hh[0]["args"], "history": hist_sig(hh), "final_obs": hh[-1]["obs"]})
+    if only is None and (not stats["closed_unset"] or not stats["closed_set"] or not stats["close_calls_checked"]):
+        raise vlib.ToolError("vacuity: Flex histories do not reach both set and unset closes")
+    log(f"[X03b] {len(hists)} Flex histories replayed ({stats['closed_set']} closed with a value, {stats['closed_unset']} without)")
+
+
+# --------------------------------------------------------------------------------------------
 def run(prop, tier):
     chk = vlib.Check(prop, tier)
     chk.rule = ("traces = TLC behaviours executed against the real code: finished #[derive(Entry)] type trees whose ordered "
@@ -425,11 +745,28 @@ def run(prop, tier):
     chk.assumptions = [
         "derive(Entry): identifiers are two lowercase words written snake_case or camelCase; digits, acronyms, raw identifiers, "
         "generics and lifetimes on the deriving type are out of scope",
-        "derive(Entry): exhaustive within the small bounds / the names family, random walks (TLC -simulate) beyond",
+        "derive(Entry): exhaustive within the small bounds / the names family (every container form x rename_all x variant "
+        "rename_all holding every leaf kind), random walks (TLC -simulate) beyond; the quick tier binds every names tree and a "
+        "seeded sample of the others",
+        "derive(Entry): item ORDER is part of the property (the documented expansion writes in declaration order); the order of "
+        "sample_group() pairs is not ('The order of (key, value) pairs in the group doesn't matter') and only reported as MODEL-DRIFT",
+        "rejected definitions: acceptance of a definition documented as rejected is a violation, a different diagnostic text only drift",
+        "Instrumented: one object per history, futures polled by hand with a no-op waker; the closure yields a fixed number of times; "
+        "whether discard_metrics() on a guard emits is implementation-shaped (drift only)",
+        "Flex: the dynamic name is emitted verbatim under rename_all / struct prefix (module example); that a flatten-level prefix is "
+        "ignored too is implementation-shaped (drift only); close calls are observed through a counting CloseValue type",
     ]
     subjects = os.environ.get("VERIF_X03_SUBJECTS", "a,c,b").split(",")
     if "a" in subjects:
         run_entryderive(chk, tier)
+        if BUDGET[tier]["neg"]:
+            run_entryderive_neg(chk, tier)
+    if "c" in subjects or "b" in subjects:
+        vlib.cargo_build(["flexi"])
+    if "c" in subjects:
+        run_instrument(chk, tier)
+    if "b" in subjects:
+        run_flex(chk, tier)
     return chk.finish()
 
 
@@ -446,6 +783,13 @@ def replay(prop, path):
         cmp_ = EdComparer(chk)
         cmp_.compare(rp["family"], "r0", line, got.get("r0"))
         log(f"replayed 1 type tree: violations {dict(cmp_.by_key)}")
+        return 1 if chk.violations else 0
+    if rp.get("kind") in ("instrument", "flex"):
+        vlib.cargo_build(["flexi"])
+        (run_instrument if rp["kind"] == "instrument" else run_flex)(chk, "quick", only=[rp["history"]])
+        return 1 if chk.violations else 0
+    if rp.get("kind") == "entryderive-neg":
+        run_entryderive_neg(chk, "quick", only=[rp["line"]])
         return 1 if chk.violations else 0
     log("unknown replay kind")
     return 2
